@@ -205,6 +205,8 @@ func cmdCheck(args []string) int {
 		ev.solverTime += r.SolverTime
 		ev.steps += r.Steps
 		ev.asserts += r.Asserts
+		ev.mapChecks[0] += r.MapChecks[0]
+		ev.mapChecks[1] += r.MapChecks[1]
 		for k, n := range r.Aborts {
 			inconclusive = append(inconclusive, fmt.Sprintf("%s shape %d: %s (x%d)", r.Harness, r.Shape, k, n))
 			if strings.HasPrefix(k, "unwind") {
@@ -269,14 +271,17 @@ func cmdCheck(args []string) int {
 			}
 			cases = append(cases, nc)
 		}
-		// stack-overflow candidates crash the native process: run each alone
-		var ovf []*Violation
+		// stack-overflow candidates crash the native process: run each alone;
+		// map-race candidates are confirmed by the Go race detector (a build of their own)
+		var ovf, races []*Violation
 		{
 			keepV := vcases[:0]
 			keepC := cases[:len(pick)]
 			for i, v := range vcases {
 				if v.Label == "stack-overflow" {
 					ovf = append(ovf, v)
+				} else if v.Label == "map-race" {
+					races = append(races, v)
 				} else {
 					keepV = append(keepV, v)
 					keepC = append(keepC, cases[len(pick)+i])
@@ -292,6 +297,35 @@ func cmdCheck(args []string) int {
 			} else {
 				v.Confirmed = "no"
 				inconclusive = append(inconclusive, fmt.Sprintf("recursion bound exceeded but no native stack overflow: %s shape %d %s assign %v", v.Harness, v.Shape, v.Detail, v.Assign))
+			}
+		}
+		if len(races) > 0 {
+			var rc []nativeCase
+			for _, v := range races {
+				rc = append(rc, nativeCase{Harness: v.Harness, Shape: v.Shape, Assign: v.Assign, Repeat: 60})
+			}
+			rres, rerr := runNativeOpt(env, rc, hs, true)
+			for i, v := range races {
+				if rerr == nil && strings.HasPrefix(rres[i].Panic, "the native run died:") {
+					v.Confirmed = "native"
+					v.Detail += " (" + rres[i].Panic + ")"
+					ev.validated++
+				} else if rerr == nil && (rres[i].Fail != "" || rres[i].Panic != "") && !rres[i].Assume && len(rres[i].Missing) == 0 {
+					// the real build fails the harness on this input before the race detector
+					// speaks: still a violation shown by the real code
+					v.Confirmed = "native"
+					v.Detail += " (native run fails at " + rres[i].Fail + rres[i].Panic + ")"
+					ev.validated++
+				} else {
+					v.Confirmed = "no"
+					why := ""
+					if rerr != nil {
+						why = rerr.Error()
+					} else {
+						why = fmt.Sprintf("native fail=%q panic=%q", rres[i].Fail, rres[i].Panic)
+					}
+					inconclusive = append(inconclusive, fmt.Sprintf("unordered map accesses not reported by the Go race detector on the real build: %s shape %d %s (%s)", v.Harness, v.Shape, v.Detail, why))
+				}
 			}
 		}
 		var nativeViol []*Violation
@@ -342,7 +376,7 @@ func cmdCheck(args []string) int {
 			}
 		}
 		// report
-		for _, v := range append(append(vcases, ovf...), nativeViol...) {
+		for _, v := range append(append(append(vcases, ovf...), races...), nativeViol...) {
 			if v.Confirmed != "native" {
 				continue
 			}
@@ -521,6 +555,12 @@ type nativeResult struct {
 }
 
 func runNative(env *Env, cases []nativeCase, hs []*Harness) ([]nativeResult, error) {
+	return runNativeOpt(env, cases, hs, false)
+}
+
+// runNativeOpt: race = build the harness with the Go race detector and stop at its first
+// report (the case it stopped in gets the report as its result, like a fatal error).
+func runNativeOpt(env *Env, cases []nativeCase, hs []*Harness, race bool) ([]nativeResult, error) {
 	if len(cases) == 0 {
 		return nil, nil
 	}
@@ -558,7 +598,12 @@ func runNative(env *Env, cases []nativeCase, hs []*Harness) ([]nativeResult, err
 	traceDir := filepath.Join(tmp, "sqltrace")
 	os.MkdirAll(traceDir, 0o755)
 	goenv := append(os.Environ(), "GOFLAGS=-mod=mod", "GOPROXY=off", "GOSUMDB=off", "GOTOOLCHAIN=local", "VERIF_BATCH="+batch, "VERIF_SQLTRACE_DIR="+traceDir, fmt.Sprintf("VERIF_TIERN=%d", env.tierN))
-	build := exec.Command("go", "test", "-c", "-vet=off", "-o", bin, "-overlay", ovFile, harnessPkg)
+	buildArgs := []string{"test", "-c", "-vet=off", "-o", bin, "-overlay", ovFile, harnessPkg}
+	if race {
+		buildArgs = append([]string{"test", "-race"}, buildArgs[1:]...)
+		goenv = append(goenv, "GORACE=halt_on_error=1")
+	}
+	build := exec.Command("go", buildArgs...)
 	build.Dir = repoDir
 	build.Env = goenv
 	if bout, berr := build.CombinedOutput(); berr != nil {
@@ -584,9 +629,31 @@ func runNative(env *Env, cases []nativeCase, hs []*Harness) ([]nativeResult, err
 			break
 		}
 		fatal := ""
-		for _, l := range strings.Split(string(out), "\n") {
+		lines := strings.Split(string(out), "\n")
+		for i, l := range lines {
 			if strings.HasPrefix(l, "fatal error:") {
 				fatal = l
+				break
+			}
+			if race && strings.HasPrefix(l, "WARNING: DATA RACE") {
+				// the two accesses: the innermost gorm function of each stack
+				var fns []string
+				for j := i + 1; j < len(lines) && len(fns) < 2; j++ {
+					h := lines[j]
+					if strings.HasPrefix(h, "Goroutine ") {
+						break
+					}
+					if (strings.Contains(h, " at 0x") && strings.Contains(h, "by goroutine")) || strings.HasPrefix(h, "Previous ") {
+						for k := j + 1; k < len(lines) && strings.HasPrefix(lines[k], "  "); k++ {
+							f := strings.TrimSpace(lines[k])
+							if strings.HasPrefix(f, "gorm.io/gorm") {
+								fns = append(fns, strings.Fields(h)[0]+" in "+f)
+								break
+							}
+						}
+					}
+				}
+				fatal = "data race reported by the Go race detector: " + strings.Join(fns, " / ")
 				break
 			}
 		}
@@ -676,14 +743,17 @@ func cmdReplay(args []string) int {
 	if v.Threaded {
 		rc.Repeat = 400
 	}
-	res, err := runNative(env, []nativeCase{rc}, nil)
+	if v.Label == "map-race" {
+		rc.Repeat = 60
+	}
+	res, err := runNativeOpt(env, []nativeCase{rc}, nil, v.Label == "map-race")
 	if err != nil {
 		fmt.Fprintln(os.Stderr, "native run failed:", err)
 		return 2
 	}
 	r := res[0]
 	fmt.Printf("replay %s shape %d: fail=%q panic=%q assume_violated=%v observes=%v\n", v.Harness, v.Shape, r.Fail, r.Panic, r.Assume, r.Observes)
-	if r.Fail == v.Label || (v.Label == "panic" && r.Panic != "") {
+	if r.Fail == v.Label || (v.Label == "panic" && r.Panic != "") || (v.Label == "map-race" && strings.HasPrefix(r.Panic, "the native run died:")) {
 		fmt.Printf("VIOLATION property=%s replay=%s\n", prop, file)
 		return 1
 	}
